@@ -49,6 +49,10 @@ CHECKS = {
         technique="deterministic simulation: grid and seeded swarm of defective-peer handshakes with per-node simulated wall-clock jumps, forged credentials and a byzantine signer (psSign seam); callback-justification oracle",
         text="Every (version, key exchange, identity kind) x verifier role x one credential defect (unknown CA, expired / not yet valid by a wall-clock jump after key load, name mismatch, forged certificate signature, corrupted proof-of-possession signature) x callback policy; "
              "oracle: the verifier completes only if there was no defect or a registered callback was invoked with a non-zero alert and accepted it; proof-of-possession defects never complete; no-defect controls must complete."),
+    "C07": dict(engine="nego", level="exploration", design="10/C07",
+        technique="deterministic simulation: independently configured endpoint pairs (exhaustive over version-set pairs) with a man in the middle rewriting single hello fields; executable negotiation model as oracle",
+        text="All 49 pairs of TLS version subsets (with and without TLS_FALLBACK_SCSV) and all DTLS pairs as fixed plans, plus a seeded swarm over suite offers, TLS 1.3 groups/key shares, EMS settings; 17 kinds of single-field rewrites of the transcript-covered ClientHello/ServerHello. "
+             "Oracle: on completion the version is enabled on both sides, offered, and the highest common one; the suite was offered; both ends report identical parameters and exchange data; no rewritten hello ever leads to completion; SCSV against a server with a higher version fails."),
 }
 
 NOT_APPLICABLE = [
